@@ -426,4 +426,201 @@ def timezoneLiterals : List (Str × Int) :=
     (hm.map (fun (h, m) => ('+' :: (two h ++ ':' :: two m), ((h * 60 + m : Nat) : Int))) ++
      hm.map (fun (h, m) => ('-' :: (two h ++ ':' :: two m), -((h * 60 + m : Nat) : Int))))
 
+/-! ## durations: XSD 1.1 Part 2, 3.3.6 (duration), 3.4.26 (yearMonthDuration), 3.4.27 (dayTimeDuration)
+
+durationLexicalRep ::= '-'? 'P' ((duYearMonthFrag duDayTimeFrag?) | duDayTimeFrag) with
+duYearFrag ::= unsignedNoDecimalPtNumeral 'Y', … duSecondFrag ::= ([0-9]+ ('.' [0-9]+)?) 'S' (the regular
+expression of 3.3.6.2), the 'T' present exactly when a time fragment follows.  Written here as *rendering*:
+a literal is the concatenation of its present fragments in the fixed order; `DurationLex` is "some well-formed
+choice of fragments renders to the string". -/
+
+def renderItem (des : Char) : Option Str → Str
+  | some ds => ds ++ [des]
+  | none => []
+
+/-- the fragments with the given designators, in order -/
+def renderItems : List Char → List (Option Str) → Str
+  | des :: more, v :: vs => renderItem des v ++ renderItems more vs
+  | _, _ => []
+
+def renderSec : Option (Str × Option Str) → Str
+  | some (a, some f) => a ++ '.' :: (f ++ ['S'])
+  | some (a, none) => a ++ ['S']
+  | none => []
+
+def numeralOk : Option Str → Bool
+  | some ds => unsignedNoDecimalPt ds
+  | none => true
+
+def secOk : Option (Str × Option Str) → Bool
+  | some (a, some f) => unsignedNoDecimalPt a && fracFrag f
+  | some (a, none) => unsignedNoDecimalPt a
+  | none => true
+
+/-- is a time fragment present -/
+def hasTime (time : List (Option Str)) (sec : Option (Str × Option Str)) : Bool :=
+  time.any Option.isSome || sec.isSome
+
+def durationRender (neg : Bool) (date time : List (Option Str)) (sec : Option (Str × Option Str)) : Str :=
+  (if neg then ['-'] else []) ++ 'P' ::
+    (renderItems ['Y', 'M', 'D'] date ++
+      (if hasTime time sec then 'T' :: (renderItems ['H', 'M'] time ++ renderSec sec) else []))
+
+/-- well-formed choice of fragments: three date slots, two time slots, numerals are digit strings,
+at least one fragment -/
+def durationWF (date time : List (Option Str)) (sec : Option (Str × Option Str)) : Bool :=
+  date.length == 3 && time.length == 2 && date.all numeralOk && time.all numeralOk && secOk sec &&
+  (date.any Option.isSome || hasTime time sec)
+
+/-- the lexical space of xs:duration -/
+def DurationLex (s : Str) : Prop :=
+  ∃ neg date time sec, durationWF date time sec = true ∧ durationRender neg date time sec = s
+
+/-- durationMap: months = 12 × years + months, seconds = 86400 d + 3600 h + 60 m + s (exact decimal),
+both negated for a leading '-' -/
+def optVal : Option Str → Nat
+  | some ds => digitSeqVal ds 0
+  | none => 0
+
+def durationValue (neg : Bool) (date time : List (Option Str)) (sec : Option (Str × Option Str)) : Int × DecVal :=
+  let months : Nat := 12 * optVal (date.getD 0 none) + optVal (date.getD 1 none)
+  let whole : Nat := 86400 * optVal (date.getD 2 none) + 3600 * optVal (time.getD 0 none) + 60 * optVal (time.getD 1 none)
+  let (sw, sf) : Str × Str := match sec with
+    | some (a, some f) => (a, f)
+    | some (a, none) => (a, [])
+    | none => ([], [])
+  let num : Nat := digitSeqVal (sw ++ sf) 0 + whole * 10 ^ sf.length
+  if neg then (-(months : Int), ⟨-(num : Int), sf.length⟩) else ((months : Int), ⟨(num : Int), sf.length⟩)
+
+/-! executable reading of a duration literal in a different style (tokens), used by the driver -/
+
+/-- one token: digits, optional '.' digits, one designator letter -/
+def durToken (s : Str) : Option ((Str × Option Str × Char) × Str) :=
+  let ds := s.takeWhile isDigit
+  if ds.isEmpty then none else
+  match s.dropWhile isDigit with
+  | '.' :: f =>
+    let fs := f.takeWhile isDigit
+    if fs.isEmpty then none else
+    (match f.dropWhile isDigit with
+     | c :: r => some ((ds, some fs, c), r)
+     | [] => none)
+  | c :: r => some ((ds, none, c), r)
+  | [] => none
+
+def durTokens : Nat → Str → Option (List (Str × Option Str × Char))
+  | _, [] => some []
+  | 0, _ => none
+  | fuel + 1, s =>
+    match durToken s with
+    | some (t, r) => (durTokens fuel r).map (t :: ·)
+    | none => none
+
+/-- the designators of the tokens form a strictly increasing selection from `order`; fractions only where allowed -/
+def tokensInOrder (order : List Char) (fracOn : Char) : List (Str × Option Str × Char) → Bool
+  | [] => true
+  | (_, fr, c) :: rest =>
+    match order.dropWhile (· != c) with
+    | _ :: after => (fr.isNone || c == fracOn) && tokensInOrder after fracOn rest
+    | [] => false
+
+def tokenOf (c : Char) (ts : List (Str × Option Str × Char)) : Option (Str × Option Str) :=
+  (ts.find? (·.2.2 == c)).map fun t => (t.1, t.2.1)
+
+/-- (months, seconds) of a literal of the lexical space, `none` outside it -/
+def durationVal? (s : Str) : Option (Int × DecVal) :=
+  let (neg, s1) := match s with | '-' :: r => (true, r) | r => (false, r)
+  match s1 with
+  | 'P' :: body =>
+    let (dpart, tpart) := splitAt (· == 'T') body
+    match durTokens body.length dpart, (match tpart with | some t => (durTokens body.length t).map some | none => some none) with
+    | some dts, some tts? =>
+      let tts := tts?.getD []
+      if !tokensInOrder ['Y', 'M', 'D'] ' ' dts then none
+      else if !tokensInOrder ['H', 'M', 'S'] 'S' tts then none
+      else if tts?.isSome && tts.isEmpty then none          -- 'T' must be followed by a time fragment
+      else if dts.isEmpty && tts.isEmpty then none
+      else
+        let num (c : Char) (ts : List (Str × Option Str × Char)) : Option Str := (tokenOf c ts).map (·.1)
+        some (durationValue neg [num 'Y' dts, num 'M' dts, num 'D' dts] [num 'H' tts, num 'M' tts] (tokenOf 'S' tts))
+    | _, _ => none
+  | _ => none
+
+/-! ## xs:time, xs:gDay, xs:gMonth, xs:gMonthDay: XSD 1.1 Part 2, 3.3.8, 3.3.12 – 3.3.14
+
+The character-class productions of the recommendation: dayFrag ::= ('0' [1-9]) | ([12] digit) | ('3' [01]),
+monthFrag ::= ('0' [1-9]) | ('1' [0-2]), hourFrag ::= ([01] digit) | ('2' [0-3]), minuteFrag ::= [0-5] digit,
+secondFrag ::= ([0-5] digit) ('.' digit+)?, endOfDayFrag ::= '24:00:00' ('.' '0'+)?, and the day-of-month
+constraint of gMonthDay (--02 has 29 days, --04 --06 --09 --11 have 30). -/
+
+def dayFragOk (a b : Char) : Bool :=
+  (a == '0' && ('1' ≤ b && b ≤ '9')) || ((a == '1' || a == '2') && isDigit b) || (a == '3' && (b == '0' || b == '1'))
+def monthFragOk (a b : Char) : Bool :=
+  (a == '0' && ('1' ≤ b && b ≤ '9')) || (a == '1' && ('0' ≤ b && b ≤ '2'))
+def hourFragOk (a b : Char) : Bool :=
+  ((a == '0' || a == '1') && isDigit b) || (a == '2' && ('0' ≤ b && b ≤ '3'))
+def minuteFragOk (a b : Char) : Bool := ('0' ≤ a && a ≤ '5') && isDigit b
+
+def fragVal (a b : Char) : Nat := (a.toNat - 48) * 10 + (b.toNat - 48)
+
+/-- the value of a timezone literal by table lookup in the enumerated lexical space -/
+def tzLookup (r : Str) : Option Int := (timezoneLiterals.find? (·.1 == r)).map (·.2)
+
+/-- optional timezone at the end of a literal -/
+def tzSuffix? : Str → Option (Option Int)
+  | [] => some none
+  | r => (tzLookup r).map some
+
+structure GVal where
+  month : Nat := 1
+  day : Nat := 1
+  hour : Nat := 0
+  minute : Nat := 0
+  second : Nat := 0
+  frac : Str := []          -- fraction digits of the seconds as written
+  tz : Option Int := none
+deriving DecidableEq, Repr
+
+def maxDay (m : Nat) : Nat := if m == 2 then 29 else if m == 4 || m == 6 || m == 9 || m == 11 then 30 else 31
+
+def gDayLex : Str → Option GVal
+  | '-' :: '-' :: '-' :: a :: b :: r =>
+    if dayFragOk a b then (tzSuffix? r).map fun tz => { day := fragVal a b, tz := tz } else none
+  | _ => none
+
+def gMonthLex : Str → Option GVal
+  | '-' :: '-' :: a :: b :: r =>
+    if monthFragOk a b then (tzSuffix? r).map fun tz => { month := fragVal a b, tz := tz } else none
+  | _ => none
+
+def gMonthDayLex : Str → Option GVal
+  | '-' :: '-' :: a :: b :: '-' :: c :: d :: r =>
+    if monthFragOk a b && dayFragOk c d && decide (fragVal c d ≤ maxDay (fragVal a b)) then
+      (tzSuffix? r).map fun tz => { month := fragVal a b, day := fragVal c d, tz := tz }
+    else none
+  | _ => none
+
+/-- ('.' digit+)? -/
+def fraction? : Str → Option (Str × Str)
+  | '.' :: rest =>
+    let fs := rest.takeWhile isDigit
+    if fs.isEmpty then none else some (fs, rest.dropWhile isDigit)
+  | r => some ([], r)
+
+def timeLex : Str → Option GVal
+  | a :: b :: ':' :: c :: d :: ':' :: e :: f :: r =>
+    match fraction? r with
+    | none => none
+    | some (fs, r') =>
+      if a == '2' && b == '4' then
+        -- endOfDayFrag: denotes 00:00:00 (of the following day)
+        if c == '0' && d == '0' && e == '0' && f == '0' && fs.all (· == '0') then
+          (tzSuffix? r').map fun tz => { tz := tz }
+        else none
+      else if hourFragOk a b && minuteFragOk c d && minuteFragOk e f then
+        (tzSuffix? r').map fun tz =>
+          { hour := fragVal a b, minute := fragVal c d, second := fragVal e f, frac := fs, tz := tz }
+      else none
+  | _ => none
+
 end EPV.XSD
